@@ -42,5 +42,11 @@ Nodes3(B) == {Node(s, {a, b, c}) : s \in B, a \in AL(B, 3), b \in AL(B, 3), c \i
 \* leaves holding a CBOR-tagged known value (same digest as the known value itself)
 TkvShapes == {Leaf(TKV(1)), Wrap(Leaf(TKV(1))), Assn(Leaf(TKV(1)), KV(1)),
               Node(Leaf(TKV(1)), {Assn(KV(1), Leaf(TKV(1)))}), Node(KV(1), {Assn(Leaf(TKV(1)), KV(1))})}
+\* a leaf holding a byte string whose bytes are themselves a CBOR item (h'182a' = the integer 42)
+BstrShapes == {Leaf(<<"cborhex", "42182a">>), Assn(KV(1), Leaf(<<"cborhex", "42182a">>)),
+               Node(Leaf(<<"cborhex", "4101">>), {Assn(KV(1), Leaf(<<"cborhex", "42182a">>))})}
+\* wrapped envelopes next to assertions: wrapped subject, wrapped object
+WrapNodes(B) == {Node(Wrap(s), {a}) : s \in B, a \in AL(B, 3)}
+                \cup {Node(s, {Assn(p, Wrap(o)), a}) : s \in B, p \in B, o \in B, a \in AL(B, 3)}
 ShUpTo(B, n) == IF n = 0 THEN {} ELSE Sh(B, n) \cup ShUpTo(B, n - 1)
 =============================================================================
